@@ -41,6 +41,10 @@ class ModuleInfo:
                 child._parent = node  # type: ignore[attr-defined]
         tree._parent = None  # type: ignore[attr-defined]
         tree._module = self  # type: ignore[attr-defined]
+        if kind in ("py", "pyx"):
+            from .localroles import apply_registered
+
+            apply_registered(self)
 
 
 class ClassInfo:
